@@ -1,6 +1,6 @@
-(* C04P.v — proofs for C04: the JSON string codec round-trips every text; what the literal decoder does to a
-   literal, exactly; a value written as parameter or as literal comes back and is found by both equality
-   filters outside the class of literals with an escape other than the escaped quote. *)
+(* C04P.v — proofs for C04: the JSON string codec round-trips every text; the literal decoder gives every literal
+   the grammars accept the value it denotes; a value written as parameter or as literal comes back and is found
+   by both equality filters. *)
 From DV Require Import Codec Sql Run_C04 C05Order.
 Open Scope list_scope.
 
@@ -48,7 +48,7 @@ Definition tok_of (c : N) : tok :=
   else TChar c.
 
 Lemma tok_of_small : forall c, (c < 32)%N ->
-  render_tok (tok_of c) = esc_char c /\ tok_value (tok_of c) = c /\ wf_tok (tok_of c) = true /\
+  render_tok (tok_of c) = esc_char c /\ (forall r, toks_from None (tok_of c :: r) = c :: toks_from None r) /\ wf_tok (tok_of c) = true /\
   (forall rest, lex_lit (esc_char c ++ rest) = option_map (cons (tok_of c)) (lex_lit rest)).
 Proof.
   intros c H. apply (small_N 32) in H. revert c H. rewrite <- Forall_forall.
@@ -56,7 +56,7 @@ Proof.
 Qed.
 
 Lemma tok_of_spec : forall c,
-  render_tok (tok_of c) = esc_char c /\ tok_value (tok_of c) = c /\ wf_tok (tok_of c) = true /\
+  render_tok (tok_of c) = esc_char c /\ (forall r, toks_from None (tok_of c :: r) = c :: toks_from None r) /\ wf_tok (tok_of c) = true /\
   (forall rest, lex_lit (esc_char c ++ rest) = option_map (cons (tok_of c)) (lex_lit rest)).
 Proof.
   intros c. destruct (N.ltb c 32) eqn:E.
@@ -95,93 +95,27 @@ Proof.
   cbn [map forallb]. destruct (tok_of_spec c) as (_ & _ & Hw & _). rewrite Hw, IH. reflexivity.
 Qed.
 
-(* ---------- what the literal decoder does, token by token ---------- *)
-Definition head_not_quote (l : str) : Prop := match l with c :: _ => c <> 34%N | [] => True end.
-
-Lemma decode_cons : forall c R, (c <> 92%N \/ head_not_quote R) -> decode_literal (c :: R) = c :: decode_literal R.
-Proof.
-  intros c R H. destruct R as [|e r]. reflexivity.
-  cbn [decode_literal]. fold (decode_literal (e :: r)).
-  destruct (N.eqb c 92 && N.eqb e 34) eqn:E; [|reflexivity].
-  apply andb_prop in E. destruct E as [E1 E2]. apply N.eqb_eq in E1. apply N.eqb_eq in E2.
-  destruct H as [H|H]. congruence. simpl in H. congruence.
-Qed.
-
-Lemma render_head : forall ts, forallb wf_tok ts = true -> head_not_quote (render ts).
-Proof.
-  intros ts H. destruct ts as [|t ts]. exact I.
-  cbn [forallb] in H. apply andb_prop in H. destruct H as [H _].
-  destruct t as [c|e]; cbn [render flat_map render_tok].
-  - simpl. cbn [wf_tok] in H. apply andb_prop in H. destruct H as [H _]. apply negb_true_iff in H. apply N.eqb_neq in H. exact H.
-  - destruct e; simpl; discriminate.
-Qed.
-
+(* ---------- the literal decoder gives every accepted literal its value ---------- *)
 Lemma is_hex_not_special : forall x, is_hex x = true -> x <> 92%N /\ x <> 34%N.
 Proof.
   intros x H. unfold is_hex, hexv in H.
   split; intros ->; simpl in H; discriminate.
 Qed.
 
-Lemma decode_render : forall ts, forallb wf_tok ts = true -> decode_literal (render ts) = flat_map tok_literal ts.
+Lemma decode_render : forall ts pending, forallb wf_tok ts = true -> decode_from pending (render ts) = toks_from pending ts.
 Proof.
-  induction ts as [|t ts IH]; intros H. reflexivity.
-  pose proof H as H0. cbn [forallb] in H. apply andb_prop in H. destruct H as [Ht Hts].
-  pose proof (render_head ts Hts) as Hh. specialize (IH Hts).
+  induction ts as [|t ts IH]; intros pending H. reflexivity.
+  cbn [forallb] in H. apply andb_prop in H. destruct H as [Ht Hts].
   unfold render in *. cbn [flat_map]. fold (render ts) in *.
   destruct t as [c|e].
-  - cbn [render_tok tok_literal app]. cbn [wf_tok] in Ht. apply andb_prop in Ht. destruct Ht as [_ Hc].
-    apply negb_true_iff in Hc. apply N.eqb_neq in Hc.
-    rewrite decode_cons by (left; exact Hc). rewrite IH. reflexivity.
-  - destruct e; cbn [render_tok render_esc tok_literal app].
-    + (* escaped quote *) cbn [decode_literal]. fold (decode_literal (flat_map render_tok ts)). simpl. rewrite IH. reflexivity.
-    + rewrite decode_cons by (right; simpl; discriminate). rewrite decode_cons by (right; exact Hh). rewrite IH. reflexivity.
-    + rewrite decode_cons by (right; simpl; discriminate). rewrite decode_cons by (left; discriminate). rewrite IH. reflexivity.
-    + rewrite decode_cons by (right; simpl; discriminate). rewrite decode_cons by (left; discriminate). rewrite IH. reflexivity.
-    + rewrite decode_cons by (right; simpl; discriminate). rewrite decode_cons by (left; discriminate). rewrite IH. reflexivity.
-    + rewrite decode_cons by (right; simpl; discriminate). rewrite decode_cons by (left; discriminate). rewrite IH. reflexivity.
-    + rewrite decode_cons by (right; simpl; discriminate). rewrite decode_cons by (left; discriminate). rewrite IH. reflexivity.
-    + rewrite decode_cons by (right; simpl; discriminate). rewrite decode_cons by (left; discriminate). rewrite IH. reflexivity.
-    + cbn [wf_tok] in Ht. apply andb_prop in Ht. destruct Ht as [Ht Hd]. apply andb_prop in Ht. destruct Ht as [Ht Hc].
-      apply andb_prop in Ht. destruct Ht as [Ha Hb].
-      destruct (is_hex_not_special _ Ha) as [Ha1 Ha2]. destruct (is_hex_not_special _ Hb) as [Hb1 Hb2].
-      destruct (is_hex_not_special _ Hc) as [Hc1 Hc2]. destruct (is_hex_not_special _ Hd) as [Hd1 Hd2].
-      rewrite decode_cons by (right; simpl; discriminate). rewrite decode_cons by (left; discriminate).
-      rewrite decode_cons by (left; exact Ha1). rewrite decode_cons by (left; exact Hb1).
-      rewrite decode_cons by (left; exact Hc1). rewrite decode_cons by (left; exact Hd1). rewrite IH. reflexivity.
+  - cbn [render_tok app wf_tok] in *. apply andb_prop in Ht. destruct Ht as [_ Hc].
+    apply negb_true_iff in Hc. cbn [decode_from toks_from]. rewrite Hc. rewrite (IH None Hts). reflexivity.
+  - destruct e; cbn [render_tok render_esc app]; cbn [decode_from toks_from];
+      cbn; rewrite (IH _ Hts); reflexivity.
 Qed.
 
-Lemma literal_only_quotes : forall ts, only_quote_escapes ts = true -> flat_map tok_literal ts = toks_value ts.
-Proof.
-  induction ts as [|t ts IH]; intros H. reflexivity.
-  unfold only_quote_escapes in *. cbn [forallb] in H. apply andb_prop in H. destruct H as [Ht Hts].
-  unfold toks_value in *. cbn [flat_map map]. rewrite (IH Hts).
-  destruct t as [c|e]. reflexivity. destruct e; try discriminate. reflexivity.
-Qed.
-
-Lemma literal_longer : forall ts, only_quote_escapes ts = false ->
-  (List.length (toks_value ts) < List.length (flat_map tok_literal ts))%nat.
-Proof.
-  assert (Hge : forall ts, (List.length (toks_value ts) <= List.length (flat_map tok_literal ts))%nat).
-  { induction ts as [|t ts IH]. simpl. lia. unfold toks_value in *. cbn [flat_map map List.length]. rewrite app_length.
-    assert (1 <= List.length (tok_literal t))%nat by (destruct t as [c|e]; [simpl; lia | destruct e; simpl; lia]). lia. }
-  induction ts as [|t ts IH]; intros H. discriminate.
-  unfold only_quote_escapes in *. cbn [forallb] in H. unfold toks_value in *. cbn [flat_map map List.length]. rewrite app_length.
-  apply andb_false_iff in H. destruct H as [H|H].
-  - specialize (Hge ts). unfold toks_value in Hge.
-    assert (2 <= List.length (tok_literal t))%nat by (destruct t as [c|e]; [discriminate | destruct e; try discriminate; simpl; lia]). lia.
-  - specialize (IH H).
-    assert (1 <= List.length (tok_literal t))%nat by (destruct t as [c|e]; [simpl; lia | destruct e; simpl; lia]). lia.
-Qed.
-
-(* the literal decoder agrees with the meaning of the literal exactly on the literals whose only escape is the escaped quote *)
-Theorem literal_decode_spec : forall ts, forallb wf_tok ts = true ->
-  (decode_literal (render ts) = toks_value ts <-> only_quote_escapes ts = true).
-Proof.
-  intros ts Hwf. rewrite (decode_render ts Hwf). split.
-  - intros H. destruct (only_quote_escapes ts) eqn:E; [reflexivity|].
-    pose proof (literal_longer ts E) as Hl. rewrite H in Hl. lia.
-  - apply literal_only_quotes.
-Qed.
+Theorem literal_decode_holds : forall ts, forallb wf_tok ts = true -> decode_literal (render ts) = toks_value ts.
+Proof. intros ts H. apply decode_render. exact H. Qed.
 
 (* the tokenizer inverts render *)
 Lemma simple_tok_render : forall e k, simple_tok e = Some k -> render_esc k = [92%N; e] /\ wf_tok (TEsc k) = true.
@@ -242,21 +176,17 @@ Proof.
 Qed.
 
 (* ---------- values written as parameter or as literal come back unchanged ---------- *)
-Theorem roundtrip_outside_known : forall h w v,
-  intended h w = Some v -> known_C04 (CStr h w) = [] ->
-  spec_C04 (CStr h w) (run_C04 (CStr h w)) = true.
+Theorem roundtrip_holds : forall h w v,
+  intended h w = Some v -> spec_C04 (CStr h w) (run_C04 (CStr h w)) = true.
 Proof.
-  intros h w v Hv Hk. cbn [spec_C04 run_C04]. unfold run_str. rewrite Hv.
+  intros h w v Hv. cbn [spec_C04 run_C04]. unfold run_str. rewrite Hv.
   cbn [app]. rewrite dec_enc_str4, dec_enc_str4. rewrite json_codec.
-  cbn [known_C04] in Hk. unfold cls in Hk. destruct (has_other_escape (literal_text h w)) eqn:Ho; try discriminate.
   assert (Hst : stored h w = v /\ stored h w = decode_literal (literal_text h w)).
   { destruct h; cbn [stored literal_text intended] in *.
     - injection Hv as <-. split. reflexivity.
-      unfold has_other_escape in Ho. rewrite lex_esc in Ho. apply negb_false_iff in Ho.
-      rewrite <- render_tok_of. symmetry. rewrite <- (value_tok_of w) at 2.
-      apply literal_decode_spec. apply wf_tok_of. exact Ho.
+      rewrite <- render_tok_of. rewrite literal_decode_holds by apply wf_tok_of. symmetry. apply value_tok_of.
     - destruct (lex_lit w) as [ts|] eqn:El; try discriminate. injection Hv as <-.
-      destruct (lex_render w ts El) as [Hr Hw]. unfold has_other_escape in Ho. rewrite El in Ho. apply negb_false_iff in Ho.
-      split; [|reflexivity]. rewrite <- Hr. apply literal_decode_spec; assumption. }
+      destruct (lex_render w ts El) as [Hr Hw].
+      split; [|reflexivity]. rewrite <- Hr. apply literal_decode_holds. exact Hw. }
   destruct Hst as [H1 H2]. rewrite <- H2, H1. rewrite str_eqb_refl. reflexivity.
 Qed.
